@@ -295,6 +295,10 @@ def build_case(case):
     scene = gen.make_scene(rng, flavour=flav, nonfinite=nonfinite, nsrc=nsrc, hostile=hostile)
     for ep in eps:
         scene['opts'][ep.name] = ep.prepare(rng, scene)
+        if ep.name == 'PSFPhotometry':
+            # IterativePSFPhotometry (used by C15) re-detects sources in the residual image: those faint second-pass
+            # fits have position errors of 1-3 px and amplify the fit noise beyond any useful tolerance
+            scene['opts'][ep.name]['iterative'] = False
     if rel == 'translate':
         pads = gen.draw_pads(rng)
         scene2 = gen.translated(scene, pads)
